@@ -6,6 +6,7 @@
 #include <etl/_config/all.hpp>
 
 #include <etl/_type_traits/bool_constant.hpp>
+#include <etl/_type_traits/is_destructible.hpp>
 
 namespace etl {
 
@@ -19,18 +20,18 @@ struct is_trivially_destructible;
 #if __has_builtin(__is_trivially_destructible)
 
 template <typename T>
-struct is_trivially_destructible : bool_constant<__is_trivially_destructible(T)> { };
+struct is_trivially_destructible : bool_constant<is_destructible_v<T> && __is_trivially_destructible(T)> { };
 
 template <typename T>
-inline constexpr bool is_trivially_destructible_v = __is_trivially_destructible(T);
+inline constexpr bool is_trivially_destructible_v = is_trivially_destructible<T>::value;
 
 #else
 
 template <typename T>
-struct is_trivially_destructible : bool_constant<__has_trivial_destructor(T)> { };
+struct is_trivially_destructible : bool_constant<is_destructible_v<T> && __has_trivial_destructor(T)> { };
 
 template <typename T>
-inline constexpr bool is_trivially_destructible_v = __has_trivial_destructor(T);
+inline constexpr bool is_trivially_destructible_v = is_trivially_destructible<T>::value;
 
 #endif
 } // namespace etl
